@@ -88,6 +88,8 @@ def oracle_reference(ctx, label, factory):
     e = c09_oracle.fresh(factory)
     if not isinstance(e, E.ElementH1) or not hasattr(e, 'doflocs'):
         return
+    if '.condensed()' in label:
+        return oracle_condensed(ctx, label)
     nb = int(sum(e._bfun_counts()))
     locs = np.asarray(e.doflocs, dtype=float)
     if locs.shape[0] != nb:
@@ -132,6 +134,55 @@ def oracle_reference(ctx, label, factory):
         ctx.fail(f'elem={label}:partition-of-unity', f'{label}: sum of the located basis functions is {s[k]!r} at '
                  f'{Xl[:, k].tolist()}', {'element': label, 'located': J, 'point': Xl[:, k].tolist(), 'sum': float(s[k])})
     ctx.extra['max_duality_pou_error'] = max(ctx.extra.get('max_duality_pou_error', 0.0), worst, err)
+
+
+def oracle_condensed(ctx, label):
+    """the two parts of Element.condensed(): eo (nodal/edge/facet functions) and ei (interior functions, whose gbasis is the
+    original gbasis shifted by n; lbasis is NOT shifted, so everything goes through gbasis on the reference-cell mesh).
+    Per part: doflocs has one row per basis function (row i = location of function i of that part); duality at the located
+    DOFs of the part (a part without located DOF, e.g. a bubble, has nothing to check); partition of unity is a property of
+    the FULL element: the located functions of both parts together sum to one (checked once, at part [1])."""
+    import skfem
+    import skfem.element as E
+    base = getattr(E, label.split('.')[0])
+    which = int(label[-2])
+    full = base()
+    parts = full.condensed()          # (ei, eo)
+    part = parts[which]
+    nb = int(sum(part._bfun_counts()))
+    locs = np.asarray(part.doflocs, dtype=float)
+    if locs.shape[0] != nb:
+        ctx.fail('api=Element.condensed:doflocs-not-condensed',
+                 f'{label}: Element.condensed() does not split doflocs with the basis functions: {locs.shape[0]} rows for {nb} basis '
+                 f'functions, so row i is not the location of basis function i (Basis(mesh, elem.condensed()[0]).doflocs reports a vertex '
+                 f'for the interior DOF)', {'element': label, 'doflocs_rows': int(locs.shape[0]), 'basis_functions': nb, 'doflocs': locs.tolist()})
+        return
+    mesh = getattr(skfem, c09_oracle.MESH_OF_REFDOM[full.refdom.__name__]).init_refdom()
+    mapping = mesh._mapping()
+    J = [j for j in range(nb) if np.all(np.isfinite(locs[j]))]
+    ctx.count(('condensed', label, len(J)), nontrivial=bool(J))
+    if J:
+        Xn = locs[J].T
+        for i in range(nb):
+            phi = np.asarray(part.gbasis(mapping, Xn, i)[0], dtype=float)[0]
+            want = np.array([1.0 if i == j else 0.0 for j in J])
+            if float(np.max(np.abs(phi - want))) > 1e-9:
+                jj = J[int(np.argmax(np.abs(phi - want)))]
+                ctx.fail(f'elem={label}:nodal-duality', f'{label}: gbasis function {i} at doflocs[{jj}] on the reference cell is '
+                         f'{phi[J.index(jj)]!r}, expected {want[J.index(jj)]}', {'element': label, 'i': i, 'j': jj, 'point': locs[jj].tolist()})
+    if which == 1:
+        rng = np.random.default_rng(ctx.seed + len(label))
+        Xl = c09_oracle.lattice(full.refdom.__name__, 5, rng)
+        s_ = 0.0
+        for pt in parts:
+            pl = np.asarray(pt.doflocs, dtype=float)
+            for j in range(int(sum(pt._bfun_counts()))):
+                if j < pl.shape[0] and np.all(np.isfinite(pl[j])):
+                    s_ = s_ + np.asarray(pt.gbasis(mapping, Xl, j)[0], dtype=float)[0]
+        err = float(np.max(np.abs(s_ - 1.0)))
+        if err > 1e-9:
+            ctx.fail(f'elem={label.split(".")[0]}.condensed():partition-of-unity', f'{label}: the located functions of both condensed parts '
+                     f'sum to {np.asarray(s_).tolist()} instead of 1', {'element': label})
 
 
 def oracle(ctx, only=None):
